@@ -67,8 +67,10 @@ func tagBoundaryRule(r *Run, rule string, m *lexerModel) {
 			okSkip = true
 		}
 	}
-	if !okSkip {
-		okSkip = blockSkipsTagsSSA(w, pm)
+	// the paths decide (they also see what else the loop drops); the syntactic form stands in only when the block
+	// parser has too many paths to walk
+	if viaPaths, walked := blockSkipsTagsSSA(w, pm); walked {
+		okSkip = viaPaths
 	}
 	if okSkip {
 		r.Ok(rule, pm.blockParse.Name(), "skips <% and %> between statements", w.Pos(pm.blockParse.Decl.Pos()), "if cur is S_START or E_END { advance; continue }")
@@ -83,12 +85,13 @@ func tagBoundaryRule(r *Run, rule string, m *lexerModel) {
 
 // blockSkipsTagsSSA: the same on the paths of the block parser, with the parser's token predicates (bool methods
 // without a loop that only ask curTokenIs / peekTokenIs) walked in line: every call of the statement parser comes
-// after the current token - as it stands since the last advance - was found to be neither '<%' nor '%>'.
-func blockSkipsTagsSSA(w *World, pm *parserModel) bool {
+// after the current token - as it stands since the last advance - was found to be neither '<%' nor '%>', and the
+// loop steps over a token it has not parsed only when that token was found to be one of the two.
+func blockSkipsTagsSSA(w *World, pm *parserModel) (holds, walked bool) {
 	ps := w.parserSSA()
 	fn, stmt := w.SSAFunc(pm.blockParse), w.SSAFunc(pm.stmtParse)
 	if ps == nil || fn == nil || stmt == nil {
-		return false
+		return false, false
 	}
 	inline := func(caller, callee *ssa.Function) bool {
 		if callee.Pkg != ps.pkg || callee == ps.curIs || callee == ps.peekIs || callee == ps.next || callee == ps.expect || funcHasLoop(callee) {
@@ -111,11 +114,20 @@ func blockSkipsTagsSSA(w *World, pm *parserModel) bool {
 	}
 	paths, ok := walkPathsUnrolled(fn, nil, inline, 20000)
 	if !ok || len(paths) == 0 {
-		return false
+		return false, false
+	}
+	inLoop := map[*ssa.BasicBlock]bool{}
+	for _, b := range fn.Blocks {
+		if isLoopHeader(b) {
+			for x := range loopBodyOf(b) {
+				inLoop[x] = true
+			}
+		}
 	}
 	n := 0
 	for _, p := range paths {
 		from := 0 // decisions made about the token under the cursor now
+		parsed := false
 		for ei, ev := range p.events {
 			c, isCall := ev.(*ssa.Call)
 			if !isCall {
@@ -123,9 +135,24 @@ func blockSkipsTagsSSA(w *World, pm *parserModel) bool {
 			}
 			switch c.Call.StaticCallee() {
 			case ps.next:
+				// a token of the block's body stepped over without having been parsed: it was found to be '<%' or '%>'
+				// (nothing else is dropped between the statements of a block)
+				if !parsed && (c.Parent() != fn || inLoop[c.Block()]) {
+					isTag := false
+					for _, d := range p.decisions[from:p.evDecided[ei]] {
+						if tok, which, positive, isTest := ps.tokenTest(p, d.cond); isTest && which == "cur" && d.truth == positive && (tok == "<%" || tok == "%>") {
+							isTag = true
+						}
+					}
+					if !isTag {
+						return false, true
+					}
+				}
 				from = p.evDecided[ei]
+				parsed = false
 			case stmt:
 				n++
+				parsed = true
 				not := map[string]bool{}
 				for _, d := range p.decisions[from:p.evDecided[ei]] {
 					if tok, which, positive, isTest := ps.tokenTest(p, d.cond); isTest && which == "cur" && d.truth != positive {
@@ -133,12 +160,12 @@ func blockSkipsTagsSSA(w *World, pm *parserModel) bool {
 					}
 				}
 				if !not["<%"] || !not["%>"] {
-					return false
+					return false, true
 				}
 			}
 		}
 	}
-	return n > 0
+	return n > 0, true
 }
 
 // startTagTransparentSSA: on every path of the statement parser on which the current token was found to
